@@ -142,8 +142,27 @@ pub mod c05 {
         ctx.pt_run("seq-every-poll", cases, strat, |c| serde_json::to_value(c).unwrap(), |c, obs| eval_cutoffs(c, obs, "C05", max_k));
         ctx.stats.exhaustive.insert("seq-every-poll: every poll index 1..=K+1 of each generated (instance, configuration)".into(), true);
         crate::props::par::run_c05_parallel(ctx);
+        // larger searches (10..=16 item knapsacks, 11..=15 item set packing), sequential and with 2-4 real
+        // threads: K is in the hundreds or thousands there, so the cutoff fires at a sample of poll indices
+        if ctx.stats.violations.is_empty() {
+            use crate::families::*;
+            use crate::props::fam::*;
+            use proptest::prelude::*;
+            let cases = ctx.tier.pick(400, 5_000);
+            let strat = (fam_case_strategy(vec![10, 11], vec![DdKind::Lel, DdKind::Frontier, DdKind::Pooled], false), prop_oneof![2 => Just(None), 1 => (2usize..=4).prop_map(Some)], prop::collection::vec(any::<u16>(), 6)).prop_map(|(mut case, threads, picks)| {
+                case.threads = threads;
+                FamCutCase { case, picks }
+            });
+            ctx.pt_run("large-families-sampled-polls", cases, strat, |c| serde_json::to_value(c).unwrap(), eval_family_cutoffs);
+        }
     }
     fn replay(part: &str, case: &Value, known: &KnownFindings) -> Verdict {
+        if part == "large-families-sampled-polls" {
+            return match serde_json::from_value::<crate::props::fam::FamCutCase>(case.clone()) {
+                Ok(c) => crate::props::fam::eval_family_cutoffs(&c, &mut CaseObs::default()),
+                Err(e) => Verdict::HarnessError(format!("cannot decode replay case: {e}")),
+            };
+        }
         if part.starts_with("par") {
             return crate::props::par::replay(part, case, known, "C05");
         }
